@@ -268,6 +268,26 @@ def check_deep(case, rec):
         shutil.rmtree(tmp, ignore_errors=True)
 
 
+def big_code_models(ctx):
+    """Integer columns of very large codes with a step threshold right next to a code: integers are compared as
+    integers (a threshold one above a code of 2**60 is above it)."""
+    for base in (2 ** 53, 2 ** 60, -2 ** 60):
+        for delta in (1, -1, 0):
+            for direction in ("LowToHigh", "HighToLow"):
+                for via in (None, "Maximum", "Copy", "Sum"):
+                    for rev in (False, True):
+                        cells = [base, base + 256, base - 512, 3]
+                        nodes = [{"name": "In0", "cmd": "EEMSRead", "col": "c0"}]
+                        src = "In0"
+                        if via:
+                            nodes.append({"name": "N0", "cmd": via, "inputs": ["In0"], "params": {}})
+                            src = "N0"
+                        nodes.append({"name": "B", "cmd": "CvtToBinary", "inputs": [src], "params": {"Threshold": base + delta, "Direction": direction}})
+                        order = list(range(len(nodes)))
+                        yield {"rows": 4, "cols": {"c0": {"data": cells, "mask": None, "dtype": "int64", "missing": None}},
+                               "nodes": nodes, "order": order[::-1] if rev else order}
+
+
 PARTS = {"model": check_model, "deep": check_deep}
 
 
@@ -276,4 +296,5 @@ def run_shard(ctx, rec):
     # a slice dense in the commands that weigh their inputs (a zero weight must not hide an input's missing cells)
     drive(ctx, rec, "model", model_cases(["CvtToFuzzy", "FuzzyWeightedUnion", "WeightedSum", "WeightedMean", "FuzzyNot", "Copy"]), check_model,
           ctx.n(1500, 20000), tag="model/weighted")
+    drive_enum(ctx, rec, "model", big_code_models(ctx), check_model, exhaustive=True, tag="model/big_codes")
     drive_enum(ctx, rec, "deep", deep_cases(ctx), check_deep, exhaustive=True)
